@@ -837,7 +837,8 @@ impl rustc_driver::Callbacks for Cb {
                         J::A(g.own_params.iter().map(|p| s(format!("{}:{:?}", p.name, p.kind))).collect()),
                     ));
                     let mut vs = vec![];
-                    for v in adt.variants() {
+                    let discrs: Vec<u128> = if adt.is_enum() { adt.discriminants(tcx).map(|(_, d)| d.val).collect() } else { vec![] };
+                    for (vi, v) in adt.variants().iter().enumerate() {
                         let mut fo = vec![];
                         for f in &v.fields {
                             let fty = tcx.type_of(f.did).instantiate_identity().skip_norm_wip();
@@ -849,6 +850,9 @@ impl rustc_driver::Callbacks for Cb {
                         }
                         let mut vo: Vec<(&'static str, J)> = vec![("name", s(v.name.to_string())), ("fields", J::A(fo))];
                         vo.push(("ctor", s(format!("{:?}", v.ctor_kind()))));
+                        if let Some(d) = discrs.get(vi) {
+                            vo.push(("discr", J::I(*d as i128)));
+                        }
                         vs.push(J::O(vo));
                     }
                     o.push(("variants", J::A(vs)));
@@ -882,6 +886,16 @@ impl rustc_driver::Callbacks for Cb {
                             let infcx = tcx.infer_ctxt().build(ty::TypingMode::non_body_analysis());
                             let r = infcx.type_implements_trait(tr, [t], tcx.param_env(did));
                             o.push(("sync", J::B(r.must_apply_modulo_regions())));
+                        }
+                    }
+                    // the initialiser (tables written as constants are read by the abstract evaluators)
+                    if !ty_str(t).contains("phf::") {
+                        if let Some(body) = tcx.hir_maybe_body_owned_by(ldid) {
+                            let typeck = tcx.typeck(ldid);
+                            let mut cx = Cx { tcx, typeck, owner: ldid, unsafe_sites: vec![] };
+                            let v = cx.expr(body.value);
+                            o.push(("hir", v));
+                            unsafe_sites.extend(cx.unsafe_sites.drain(..));
                         }
                     }
                     span_fields(tcx, tcx.def_span(did), &mut o);
